@@ -61,6 +61,10 @@ def alphabet(info, depth):
                     for off in OFFSETS:
                         ops.append('W,%d,%d,%d,%d' % (fd, sh, off, ns))
                         ops.append('R,%d,%d,%d,%d' % (fd, sh, off, ns))
+                    if sh in (0, 1):      # offsets that are negative as a host off_t (2^63, 2^64-1): POSIX says EINVAL, nothing transferred, position kept
+                        for off in (2 ** 63, 2 ** 64 - 1):
+                            ops.append('W,%d,%d,%d,%d' % (fd, sh, off, ns))
+                            ops.append('R,%d,%d,%d,%d' % (fd, sh, off, ns))
             ops.append('t,%d,%d' % (fd, ns))
             ops.append('c,%d,%d' % (fd, ns))
         for ns in both:
@@ -151,7 +155,7 @@ def main(tier):
     if conf:
         print('note: definitions in wasi.c whose C signature differs from the specification signature of the import: %s' % json.dumps(conf))
     rule = ('breadth-first search over histories of path_open(name in f,g,sub x 6 oflags x 2 fdflags x 3 rights), fd_write/fd_read (5 iovec shapes), '
-            'fd_pwrite/fd_pread (5 shapes x offsets 0,2,7,2^31,2^32+3), fd_seek (4 offsets x whence 0..3, both encodings), fd_tell, '
+            'fd_pwrite/fd_pread (5 shapes x offsets 0,2,7,2^31,2^32+3; 2 shapes x offsets 2^63, 2^64-1), fd_seek (4 offsets x whence 0..3, both encodings), fd_tell, '
             'fd_filestat_get (both layouts), fd_close on the descriptors the history opened; one history per distinct canonical state '
             '(contents of f and g, and target/access/append/position of every live descriptor) is extended; every step is compared with the POSIX twin; '
             'distinct_nontrivial = distinct (operation, errno, stored result) triples observed')
